@@ -10,7 +10,7 @@
     Graphs: node ids pairwise distinct ([NoDup (node_ids g)], guaranteed by networkx); adjacency is symmetric by
     construction ([LGraph.adj]). *)
 From Coq Require Import List NArith ZArith Bool Arith Permutation Sorted.
-From SK Require Import lib.LGraph model.C12_Model model.C12_Trace model.C12_Check model.C12_State proof.C12_Search proof.C12_Proof proof.C12_Prune proof.C12_Enum proof.C12_Sorted proof.C12_Component proof.C12_Mol proof.C12_State proof.C12_Trace proof.C12_LastSize proof.C12_StateRaw proof.C12_Check proof.C12_MtgRaw.
+From SK Require Import lib.LGraph model.C12_Model model.C12_Trace model.C12_Check model.C12_CheckMtg model.C12_State proof.C12_Search proof.C12_Proof proof.C12_Prune proof.C12_Enum proof.C12_Sorted proof.C12_Component proof.C12_Mol proof.C12_State proof.C12_Trace proof.C12_LastSize proof.C12_StateRaw proof.C12_Check proof.C12_MtgRaw proof.C12_CheckMtg.
 Import ListNotations.
 
 (** ** 0. the specification: a common induced sub-graph mapping, written out.
@@ -757,3 +757,19 @@ Theorem C12_keyword_defaults :
                      MRcMol x (dflt SOp sd) ch).
 Proof. exact resolve_defaults. Qed.
 Print Assumptions C12_keyword_defaults.
+
+(** ** 25. (wave 4) the MTG copy's own mcs_mol mode (synkit/Graph/MTG/mcs_matcher.py _find_mcs_mol; not exercised before wave 4):
+    the greedy component pairing with the MTG matchers, VF2's isomorphisms as a validated input ([find_mcs_mol_with_mtg],
+    [run_mcs_mol_with_mtg]).  Every accepted parameter yields one combined mapping of the size of the parameter that is a common
+    induced mapping of the two graphs for the MTG matchers, also across components. *)
+Theorem C12_mtg_mcs_mol_choice_valid :
+  forall (defs : list N) (g1 g2 : graph) (choice : mapping) (maps : list mapping) (last n : nat),
+  NoDup (node_ids g1) -> NoDup (node_ids g2) ->
+  (forall a b x, In (a, b, x) (gedges g1) -> In a (node_ids g1) /\ In b (node_ids g1)) ->
+  (forall a b x, In (a, b, x) (gedges g2) -> In a (node_ids g2) /\ In b (node_ids g2)) ->
+  find_mcs_mol_with_mtg defs g1 g2 choice = Some (maps, last, n) ->
+  exists m, maps = [m] /\ last = length m /\ n = snd (find_mcs_mol_pairs_mtg defs g1 g2) /\
+            (forall ph, In ph m -> In ph choice) /\ length m = length choice /\
+            common_induced (node_match defs) edge_match_mtg g1 g2 m.
+Proof. exact mol_choice_valid_mtg. Qed.
+Print Assumptions C12_mtg_mcs_mol_choice_valid.
